@@ -2031,7 +2031,7 @@ class HttpHeaderFieldUnparsed(FieldParsableBase, Serializable):
         parser = cls._parse_name(parsable)
         parser.parse_separator(cls.get_separator())
         parser.parse_separator(' ', min_length=0, max_length=None)
-        parser.parse_string_until_separator('value', '\r\n')
+        parser.parse_string_until_separator('value', ['\r\n', ])
 
         return cls(parser['name'], parser['value']), parser.parsed_length
 
